@@ -19,7 +19,7 @@ if ! go build ./... >/tmp/$name.build 2>&1; then res "does-not-build"; tail -5 /
 if go test -vet=off -count=1 ./... >/tmp/$name.test 2>&1; then res "suite-passes"; else res "suite-FAILS"; grep -E "^(--- FAIL|FAIL|panic)" /tmp/$name.test | head -5; fi
 if [ -f "$dir/RUN.txt" ]; then
   # RUN.txt is free text: "Copy <file> to <dest path> and run ...: go test|run ..."
-  dest=$(grep -oE ' to [^ ]+\.go' "$dir/RUN.txt" | head -1 | sed 's/^ to //'); cmd=$(grep -oE '(cd [^&;]+(&&|;) *)?([A-Z_]+=[^ ]+ +)*go (test|run) .*' "$dir/RUN.txt" | head -1 | sed -E 's/[[:space:]]+\([^()]*\)[[:space:]]*$//; s/^cd <[a-z ]+> *(&&|;) *//')
+  dest=$(grep -oE ' to [^ ]+\.go' "$dir/RUN.txt" | head -1 | sed 's/^ to //'); cmd=$(grep -oE '(cd [^&;]+(&&|;) *)?([A-Z_]+=[^ ():;]+ +)*go (test|run) .*' "$dir/RUN.txt" | head -1 | sed -E 's/[[:space:]]+\([^()]*\)[[:space:]]*$//; s/^cd <[a-z ]+> *(&&|;) *//')
   demo=$(ls "$dir" | grep -E '_test\.go$|main\.go$' | head -1)
   if [ -n "$dest" ] && [ -n "$demo" ]; then
     mkdir -p "$(dirname "$dest")"; cp "$dir/$demo" "$dest"
